@@ -76,7 +76,7 @@ func Exec(t *testing.T, sc *Scenario, oracle Oracle, path []string, everyStep bo
 }
 
 // gcEvery: executions between forced collections (see run.go).
-const gcEvery = 32
+const gcEvery = 6
 
 type stateRec struct {
 	Hash    uint64
@@ -121,7 +121,7 @@ func Explore(t *testing.T, sc *Scenario, oracle Oracle, sh vr.ShardInfo, dir str
 		vr.Fatalf("clustermc: %v", err)
 	}
 	pre := sc.Name + "/"
-	seen := map[uint64]struct{}{}
+	seen := map[uint64]uint8{} // state hash -> length of the shortest path it was reached by
 	var queue []stateRec
 	head := 0
 	outbuf := make([][]stateRec, n)
@@ -159,16 +159,52 @@ func Explore(t *testing.T, sc *Scenario, oracle Oracle, sh vr.ShardInfo, dir str
 		abort(dir, fmt.Sprintf("scenario %s path %v: %s", sc.Name, path, res.Err))
 		return res
 	}
+	// Dedup soundness spot check: for a deterministic sample of states (hash%256==0) the
+	// first path is kept; when the same canonical state is reached again over a different
+	// path, both paths are expanded and must have identical successor states. A mismatch
+	// means the canonical key misses something that determines the future: harness error.
+	firstPath := map[uint64]string{}
+	succKeys := func(path []string, enabled string) string {
+		var ks []string
+		for _, tr := range splitPath(enabled) {
+			r := Exec(t, sc, oracle, append(append([]string{}, path...), tr), false)
+			p.Add("executions", 1)
+			ks = append(ks, fmt.Sprintf("%s=%x/%s", tr, vr.Hash64(r.Key), r.Sig))
+		}
+		return strings.Join(ks, " ")
+	}
+	depthOf := func(path string) uint8 {
+		if path == "" {
+			return 0
+		}
+		return uint8(strings.Count(path, " ") + 1)
+	}
 	push := func(rec stateRec) {
-		if _, ok := seen[rec.Hash]; ok {
-			p.Add("dedup_hits", 1)
+		d := depthOf(rec.Path)
+		if old, ok := seen[rec.Hash]; ok && d < old && sc.DepthBound {
+			// reached again by a shorter path: re-expand so that the depth bound is exact
+			seen[rec.Hash] = d
+			queue = append(queue, rec)
+			p.Add("reexpanded_shorter_path", 1)
 			return
 		}
-		seen[rec.Hash] = struct{}{}
-		queue = append(queue, rec)
-		if d := int64(strings.Count(rec.Path, " ") + 1); rec.Path != "" {
-			p.Max("max_depth", d)
+		if _, ok := seen[rec.Hash]; ok {
+			p.Add("dedup_hits", 1)
+			if fp, ok := firstPath[rec.Hash]; ok && fp != rec.Path && p.Counters["dedup_bisim_checks"] < 150 {
+				p.Add("dedup_bisim_checks", 1)
+				a, b := succKeys(splitPath(fp), rec.Enabled), succKeys(splitPath(rec.Path), rec.Enabled)
+				if a != b {
+					abort(dir, fmt.Sprintf("scenario %s: canonical state key is not a bisimulation: paths [%s] and [%s] have equal keys but different successors\n%s\n%s", sc.Name, fp, rec.Path, a, b))
+				}
+			}
+			return
 		}
+		seen[rec.Hash] = d
+		if rec.Hash%256 == 0 {
+			firstPath[rec.Hash] = rec.Path
+		}
+		queue = append(queue, rec)
+		p.Max("max_depth", int64(d))
 		if rec.Enabled == "" {
 			p.Add("terminal_states", 1)
 			if p.Counters["samples_"+sc.Name] < 1 {
@@ -307,7 +343,11 @@ func Explore(t *testing.T, sc *Scenario, oracle Oracle, sh vr.ShardInfo, dir str
 		path := splitPath(st.Path)
 		if len(path) >= sc.MaxDepth {
 			if st.Enabled != "" {
-				p.Add("depth_cut", 1)
+				if sc.DepthBound {
+					p.Add("depth_bound_frontier", 1)
+				} else {
+					p.Add("depth_cut", 1)
+				}
 			}
 			continue
 		}
